@@ -33,8 +33,11 @@ def braid_suite(ctx, vh):
     # > 256 braided commands: BraidResult spill); decided on C02's own predicate and twin equality
     ladders = [{"rungs": r, "side": s, "side_mode": m} for r in (3, 90, 300, 513) for s in (1, 2, 4) for m in (0, 1, 2)]
     ladders += [{"rungs": 900, "side": 2, "side_mode": m} for m in (0, 1, 2)]
+    # fan family: many convergence points at ONE max cut (overlapping spilled blocks)
+    ladders += [{"fan": f} for f in (3, 130, 300, 600)]
     if ctx.thorough:
         ladders += [{"rungs": r, "side": s, "side_mode": m} for r in (769, 1025, 1500, 2500) for s in (2, 3, 40) for m in (0, 1, 2)]
+        ladders += [{"fan": f} for f in (513, 1100)]
     out += ctx.run_engine(vh, "braid", ladders, tag="ladder", timeout=1800)
     ctx.cov["ladder_cases"] = ladders
     if ctx.thorough:
